@@ -137,42 +137,41 @@ theorem filterMap_congr' {α β : Type} {f g : α → Option β} {l : List α} (
   induction l with
   | nil => rfl
   | cons a l ih =>
-    simp only [List.filterMap_cons, h a (List.mem_cons_self ..)]
-    rw [ih (fun x hx => h x (List.mem_cons_of_mem _ hx))]
+    rw [List.filterMap_cons, List.filterMap_cons, h a (List.mem_cons_self ..), ih (fun x hx => h x (List.mem_cons_of_mem _ hx))]
 
 theorem flatMap_congr' {α β : Type} {f g : α → List β} {l : List α} (h : ∀ x ∈ l, f x = g x) :
     l.flatMap f = l.flatMap g := by
   induction l with
   | nil => rfl
   | cons a l ih =>
-    simp only [List.flatMap_cons, h a (List.mem_cons_self ..)]
-    rw [ih (fun x hx => h x (List.mem_cons_of_mem _ hx))]
+    rw [List.flatMap_cons, List.flatMap_cons, h a (List.mem_cons_self ..), ih (fun x hx => h x (List.mem_cons_of_mem _ hx))]
+
+theorem embedIfaces_congr (on : Bool) (f₁ f₂ : Disk) (sfx : String) (xs : List String)
+    (h : ∀ e ∈ xs, lookupIface f₁ (e ++ sfx) = lookupIface f₂ (e ++ sfx)) :
+    embedIfaces on f₁ sfx xs = embedIfaces on f₂ sfx xs := by
+  unfold embedIfaces
+  cases on with
+  | false => rw [if_neg (by decide), if_neg (by decide)]
+  | true =>
+    rw [if_pos rfl, if_pos rfl]
+    exact filterMap_congr' (fun e he => by rw [h e he])
+
+theorem embedAccs_congr (sw : Bool × Bool) (f₁ f₂ : Disk) (xs : List String)
+    (h : ∀ e ∈ xs, lookupIface f₁ (e ++ "Getter") = lookupIface f₂ (e ++ "Getter") ∧
+      lookupIface f₁ (e ++ "Setter") = lookupIface f₂ (e ++ "Setter")) :
+    embedAccs sw f₁ xs = embedAccs sw f₂ xs := by
+  unfold embedAccs
+  exact flatMap_congr' (fun e he => by rw [(h e he).1, (h e he).2])
 
 theorem newStep_files_congr (lk : Leaks) (fl : NFlags) (f₁ f₂ : Disk) (st : NSt) (t : NType)
     (h : ∀ e ∈ embedsOf t,
       lookupIface f₁ (e ++ "Getter") = lookupIface f₂ (e ++ "Getter") ∧
       lookupIface f₁ (e ++ "Setter") = lookupIface f₂ (e ++ "Setter")) :
     newStep lk fl f₁ st t = newStep lk fl f₂ st t := by
-  have hg : ∀ on, embedIfaces on f₁ "Getter" (embedsOf t) = embedIfaces on f₂ "Getter" (embedsOf t) := by
-    intro on
-    cases on with
-    | false => rfl
-    | true =>
-      simp only [embedIfaces, ↓reduceIte]
-      exact filterMap_congr' (fun e he => by rw [(h e he).1])
-  have hs : ∀ on, embedIfaces on f₁ "Setter" (embedsOf t) = embedIfaces on f₂ "Setter" (embedsOf t) := by
-    intro on
-    cases on with
-    | false => rfl
-    | true =>
-      simp only [embedIfaces, ↓reduceIte]
-      exact filterMap_congr' (fun e he => by rw [(h e he).2])
-  have ha : ∀ sw, embedAccs sw f₁ (embedsOf t) = embedAccs sw f₂ (embedsOf t) := by
-    intro sw
-    simp only [embedAccs]
-    exact flatMap_congr' (fun e he => by rw [(h e he).1, (h e he).2])
   unfold newStep
-  rw [hg, hs, ha]
+  rw [embedIfaces_congr _ f₁ f₂ "Getter" _ (fun e he => (h e he).1),
+      embedIfaces_congr _ f₁ f₂ "Setter" _ (fun e he => (h e he).2),
+      embedAccs_congr _ f₁ f₂ _ h]
 
 theorem onceAux_sublist : ∀ (l : List Ctor.Field) (seen : List String), (onceAux l seen).Sublist l := by
   intro l
